@@ -67,7 +67,7 @@ def scn(params):
     sim = scen.Sim("c20-%d" % params["idx"], seed)
     try:
         k = sim.k
-        srv = sim.server(extra=["-b", str(BIND_PORT)] + (["-c"] if params["opt_c"] else []))
+        srv = sim.server(extra=["-b", str(BIND_PORT)] + (["-c"] if params["opt_c"] else []), stdin_closed=bool(params.get("stdin_closed")))
         if not srv.alive():
             out["inconclusive"] = "server-died-at-start"
             return out
@@ -106,6 +106,10 @@ def scn(params):
                 qt = rng.choice(TYPES)
                 sport = rng.choice([53, 1024, 33333, 40000 + rng.randrange(50)])
                 q = proto.build_query(qid, name, qt, edns0=rng.random() < 0.3)
+                if params.get("flagbits") and rng.random() < 0.5:
+                    # what other askers set in their queries: AD (dig), CD (validating resolvers), RD clear, both
+                    fl = rng.choice([0x0120, 0x0110, 0x0130, 0x0000, 0x0020, 0x0010])
+                    q = q[:2] + struct.pack(">H", fl) + q[4:]
                 v6 = ":" in r.ip
                 faulty = rng.random() < params.get("p_sendfault", 0)
                 if faulty:
@@ -268,7 +272,8 @@ def run(ctx):
     n = ctx.pick(400, 30000)
     plist = [{"idx": i, "seed": ctx.seed * 100000 + i, "rseed": rng.getrandbits(32), "nops": rng.randint(60, 250),
               "idspace": rng.choice([3, 4, 6, 10, 20]), "nreq": rng.randint(2, 12), "v6": rng.random() < 0.3,
-              "opt_c": rng.random() < 0.2, "p_sendfault": rng.choice([0, 0, 0, 0.05, 0.1, 0.3])} for i in range(n)]
+              "opt_c": rng.random() < 0.2, "p_sendfault": rng.choice([0, 0, 0, 0.05, 0.1, 0.3]), "stdin_closed": i % 5 == 2,
+              "flagbits": i % 3 == 1} for i in range(n)]
     if ctx.replay and "params" in ctx.replay["witness"]:
         plist = [ctx.replay["witness"]["params"]]
     res.min_evaluations = 0 if ctx.replay else 100000
